@@ -121,6 +121,12 @@ Models ==
       [nodes |-> <<Nd("Conv", <<AIs("dilations", <<2>>)>>, <<"x", "w", "b">>, <<"y">>), Nd("Conv", <<AIs("dilations", <<2, 1>>), AIs("pads", <<1, 0, 1, 0>>)>>, <<"x2", "w2">>, <<"y2">>)>>,
        inputs |-> <<InD("x", <<DSym, DFix(1), DFix(5)>>), InD("x2", <<DSym, DFix(1), DFix(3), DFix(2)>>)>>, outputs |-> <<"y", "y2">>,
        inits |-> [w |-> T("f32", <<2, 1, 2>>, <<1, -1, 2, 3>>), w2 |-> T("f32", <<1, 1, 2, 2>>, <<1, -1, 2, 1>>), b |-> T("f32", <<2>>, <<10, 20>>)]],
+    \* PRelu slopes: equal rank with an axis to stretch, exactly the shape of x for batch 1, and lower rank
+    prelu_slopes |->
+      [nodes |-> <<Nd("PRelu", <<>>, <<"x", "s13">>, <<"p">>), Nd("PRelu", <<>>, <<"x", "s3">>, <<"q">>), Nd("Unsqueeze", <<>>, <<"x", "ax0">>, <<"xx">>),
+                   Nd("PRelu", <<>>, <<"xx", "s113">>, <<"r">>)>>,
+       inputs |-> <<InD("x", <<DSym, DFix(3)>>)>>, outputs |-> <<"p", "q", "r">>,
+       inits |-> [s13 |-> T("f32", <<1, 3>>, <<2, -1, 3>>), s3 |-> T("f32", <<3>>, <<-2, 0, 1>>), s113 |-> T("f32", <<1, 1, 3>>, <<1, 2, 3>>), ax0 |-> T("i64", <<1>>, <<0>>)]],
     const_scaler_gemm |->
       [nodes |-> <<Nd("Constant", <<AT("value", [dt |-> "f32", shape |-> <<3>>, data |-> <<1, 2, 3>>])>>, <<>>, <<"k">>),
                    Nd("Scaler", <<AFs("offset", <<1, 2, 3>>), AFs("scale", <<2, 2, 2>>)>>, <<"x">>, <<"sc">>),
